@@ -46,7 +46,7 @@ def valid_case(rng, several=False):
     return case
 
 
-FAULTS = ["power-duplicate-item", "spacergrid-cdd-coeff-count", "spacergrid-no-position-in-bundle", "zero-wire-pitch", "axial-regions-cover-core", "power-wrong-count-later-assembly", "power-short-later-assembly", "duct-zero-wall", "pins-do-not-fit", "wire-too-thick", "clad-too-thick", "zero-pin-pitch", "negative-pin-diameter", "zero-duct-ftf",
+FAULTS = ["fuel-rfrac-out-of-range", "fuel-negative-porosity", "fuel-legacy-gap-too-thick", "power-duplicate-item", "spacergrid-cdd-coeff-count", "spacergrid-no-position-in-bundle", "zero-wire-pitch", "axial-regions-cover-core", "power-wrong-count-later-assembly", "power-short-later-assembly", "duct-zero-wall", "pins-do-not-fit", "wire-too-thick", "clad-too-thick", "zero-pin-pitch", "negative-pin-diameter", "zero-duct-ftf",
           "duct-ge-pitch", "unequal-outer-ducts", "axial-regions-overlap", "axial-region-inverted", "missing-bc", "negative-flowrate",
           "unknown-material", "unknown-correlation", "negative-power", "power-gap-between-cells", "power-wrong-pin-count",
           "flow-gap-no-bypass", "zero-core-length", "odd-duct-values", "zero-step-request"]
@@ -191,6 +191,24 @@ def inject(rng, case, fault, lowfid=False, near=False, excess=0.01):
                         r[3] = 0.8 * zmax
             else:                    # drop the top cell of this assembly only
                 c['power']['rows'] = [r for r in rows if not (int(r[0]) == victim and float(r[2]) == zcut)]
+    elif fault in ("fuel-rfrac-out-of-range", "fuel-negative-porosity", "fuel-legacy-gap-too-thick"):
+        if t.get('use_low_fidelity_model'):
+            return None
+        fm = t.get('FuelModel') or dict(gap_thickness=0.0, clad_material='ht9', r_frac=[0.0, 0.33333, 0.66667], pu_frac=[0.2, 0.2, 0.2],
+                                        zr_frac=[0.1, 0.1, 0.1], porosity=[0.25, 0.25, 0.25])
+        fm = copy.deepcopy(fm)
+        if fault == "fuel-rfrac-out-of-range":
+            if rng.random() < 0.5:
+                fm['r_frac'][-1] = rng.choice([1.0, 1.2])
+            else:
+                fm['r_frac'][0] = -rng.choice([0.05, 0.3])
+        elif fault == "fuel-negative-porosity":
+            fm['porosity'][rng.randrange(len(fm['porosity']))] = -rng.choice([0.5, 0.1, 0.3])
+        else:
+            fm['gap_thickness'] = 0.0
+            fm['fcgap_thickness'] = t['pin_diameter'] * rng.choice([0.55, 1.0])
+            fm['gap_material'] = 'sodium'
+        t['FuelModel'] = fm
     elif fault == "power-duplicate-item":
         # in ONE axial cell one item is listed twice and another one not at all: the number of rows is still right
         rows = c['power']['rows']
@@ -487,6 +505,138 @@ def regions_correspondence(ctx, rng, n):
     ctx.obligation("Model.AcceptRegions reproduces check_unrodded_regions (verdict, error kind, rodded bounds bit for bit) on %d "
                    "region layouts" % len(cases), bad == 0, kind="correspondence", detail="disagreements %d" % bad)
 
+# ---------------------------------------------------------------------------------------------------------------
+# fuel pellet acceptance: Model/AcceptFuel.lean (Props/C18Fuel.lean) vs DASSH_Input.check_fuel_model
+
+PU_LIMIT = 0.37037
+
+
+def fuel_descriptions(rng, n):
+    """pellet descriptions: valid ones (1-4 radial zones, solid or annular, with or without gap, standard or legacy gap key) and
+    single mutations - fractions just outside / on the ends of their ranges, unordered radii, lists of unequal length, missing
+    materials, gaps around the clad inner radius"""
+    out = []
+    for _ in range(n):
+        D = rng.uniform(0.004, 0.012)
+        clad = D * rng.uniform(0.05, 0.12)
+        inner = D / 2.0 - clad
+        nz = rng.randint(1, 4)
+        r = sorted(rng.sample([i / 20.0 for i in range(1, 20)], nz - 1))
+        r = [rng.choice([0.0, 0.0, 0.2 * (r[0] if r else 1.0)])] + r
+        f = dict(inner=inner, D=D, clad=clad, gap=rng.choice([0.0, 0.0, inner * rng.uniform(0.01, 0.2)]), fcgap=0.0, r=r,
+                 pu=[round(rng.uniform(0.0, 0.3), 3) for _ in range(nz)], zr=[round(rng.uniform(0.0, 0.3), 3) for _ in range(nz)],
+                 po=[round(rng.uniform(0.0, 0.5), 3) for _ in range(nz)], clad_mat='ht9', gap_mat=None)
+        if f['gap'] > 0:
+            f['gap_mat'] = 'sodium'
+        if rng.random() < 0.25 and f['gap'] > 0:
+            f['fcgap'], f['gap'] = f['gap'], 0.0            # the same gap given with the legacy key
+        kind = rng.choice(["valid", "valid", "rfrac-negative", "rfrac-one", "rfrac-above-one", "rfrac-unordered", "rfrac-repeated",
+                           "porosity-negative", "porosity-one", "pu-negative", "zr-negative", "pu-high", "length", "empty",
+                           "no-clad", "no-gap-material", "gap-too-thick", "gap-at-limit", "legacy-gap-too-thick"])
+        j = rng.randrange(nz)
+        if kind == "rfrac-negative":
+            f['r'][0] = -rng.choice([1e-9, 0.1, 0.5])
+        elif kind == "rfrac-one":
+            f['r'][-1] = 1.0 if nz > 1 or True else 1.0
+        elif kind == "rfrac-above-one":
+            f['r'][-1] = rng.choice([1.0 + 1e-9, 1.2, 3.0])
+        elif kind == "rfrac-unordered" and nz > 1:
+            f['r'][0], f['r'][-1] = f['r'][-1], f['r'][0]
+        elif kind == "rfrac-repeated" and nz > 1:
+            f['r'][1] = f['r'][0]
+        elif kind == "porosity-negative":
+            f['po'][j] = -rng.choice([1e-9, 0.2, 0.5])
+        elif kind == "porosity-one":
+            f['po'][j] = rng.choice([1.0, 1.5])
+        elif kind == "pu-negative":
+            f['pu'][j] = -rng.choice([1e-9, 0.2])
+        elif kind == "zr-negative":
+            f['zr'][j] = -rng.choice([1e-9, 0.2])
+        elif kind == "pu-high":
+            f['pu'][j] = rng.choice([0.37037, 0.3704, 0.5])
+        elif kind == "length":
+            k = rng.choice(['pu', 'zr', 'po'])
+            f[k] = f[k] + [f[k][-1]]
+        elif kind == "empty":
+            f[rng.choice(['pu', 'zr', 'po'])] = []
+        elif kind == "no-clad":
+            f['clad_mat'] = None
+        elif kind == "no-gap-material":
+            f['gap'] = f['gap'] or inner * 0.05
+            f['fcgap'] = 0.0
+            f['gap_mat'] = None
+        elif kind == "gap-too-thick":
+            f['gap'], f['fcgap'], f['gap_mat'] = inner * rng.choice([1.0 + 1e-9, 1.5, 3.0]), 0.0, 'sodium'
+        elif kind == "gap-at-limit":
+            f['gap'], f['fcgap'], f['gap_mat'] = inner, 0.0, 'sodium'
+        elif kind == "legacy-gap-too-thick":
+            f['gap'], f['fcgap'], f['gap_mat'] = 0.0, inner * rng.choice([1.0 + 1e-9, 1.5, 3.0]), 'sodium'
+        out.append((kind, f))
+    return out
+
+
+def real_fuel_verdict(f):
+    """the real DASSH_Input.check_fuel_model on a stub input object"""
+    from dassh.read_input import DASSH_Input
+    obj = DASSH_Input.__new__(DASSH_Input)
+    obj._default_indent = 0
+    obj._logger = _CaptureLogger()
+    fm = dict(r_frac=[repr(x) for x in f['r']], pu_frac=[repr(x) for x in f['pu']], zr_frac=[repr(x) for x in f['zr']],
+              porosity=[repr(x) for x in f['po']], fcgap_thickness=f['fcgap'], gap_thickness=f['gap'], clad_material=f['clad_mat'],
+              gap_material=f['gap_mat'], htc_params_clad=None)
+    obj.data = {'Assembly': {'a': {'pin_diameter': f['D'], 'clad_thickness': f['clad'], 'FuelModel': fm}}}
+    try:
+        obj.check_fuel_model()
+    except SystemExit:
+        msg = " ".join(obj._logger.msgs[-1:])
+        for key, kind in (("gap thickness must be less", "gap"), ("frations must arranged", "increasing"),
+                          ("fractions must be greater", "rfrac"), ("are required", "empty"), ("equal number of nodes", "length"),
+                          ('"clad_material" input required', "noclad"), ('"gap_material" required', "nogapmat"),
+                          ("Fuel porosity must be", "fraction"), ("only guaranteed", "pu")):
+            if key in msg:
+                return "err " + kind
+        return "err other:" + msg[:80]
+    return "ok"
+
+
+def fuel_possible(f):
+    """the property, evaluated directly: fractions are fractions, zones have positive thickness inside the pellet, the gap that is
+    used leaves room for a pellet"""
+    gap = f['gap'] if f['gap'] != 0.0 else max(f['fcgap'], 0.0)
+    if gap > f['inner'] or gap < 0:
+        return False
+    if any(not (0.0 <= x < 1.0) for x in f['r']) or any(b <= a for a, b in zip(f['r'], f['r'][1:])):
+        return False
+    if any(not (0.0 <= x < 1.0) for x in f['po']) or any(x < 0 for x in f['pu'] + f['zr']):
+        return False
+    return True
+
+
+def fuel_correspondence(ctx, rng, n):
+    cases = fuel_descriptions(rng, n)
+    reqs = []
+    for kind, f in cases:
+        reqs.append("fuel %d %d %d %d %d %d | %s | %s | %s | %s" % (
+            bits(PU_LIMIT), bits(f['D'] / 2.0 - f['clad']), bits(f['gap']), bits(f['fcgap']), int(f['clad_mat'] is not None),
+            int(f['gap_mat'] is not None), " ".join(str(bits(x)) for x in f['r']), " ".join(str(bits(x)) for x in f['pu']),
+            " ".join(str(bits(x)) for x in f['zr']), " ".join(str(bits(x)) for x in f['po'])))
+    bad = 0
+    for (kind, f), rep in zip(cases, modelio.ask(reqs)):
+        real = real_fuel_verdict(f)
+        ctx.evals += 1
+        ctx.count("fuel:%s:%s" % (kind, real.replace("err ", "")))
+        if real == "ok" and not fuel_possible(f):
+            ctx.violation("c18-invalid-accepted:fuel-model:%s" % kind,
+                          "check_fuel_model accepts an impossible pellet description (%s): r_frac %r, porosity %r, pu %r, zr %r, "
+                          "gap_thickness %r, fcgap_thickness %r, clad inner radius %r" % (kind, f['r'], f['po'], f['pu'], f['zr'],
+                                                                                        f['gap'], f['fcgap'], f['inner']),
+                          fuel=f, call="harness.checks.c18.real_fuel_verdict(fuel)")
+        if rep != real:
+            bad += 1
+            ctx.problem("correspondence", "Model.AcceptFuel vs DASSH_Input.check_fuel_model", "%s %r: model %s, real %s" % (kind, f, rep, real))
+    ctx.obligation("Model.AcceptFuel reproduces check_fuel_model (verdict and error kind) on %d pellet descriptions" % len(cases),
+                   bad == 0, kind="correspondence", detail="disagreements %d" % bad)
+
 
 def run(ctx):
     rng = random.Random(18000 + ctx.seed)
@@ -496,8 +646,10 @@ def run(ctx):
     ctx.prove("Dassh.Props.C18")
     ctx.prove("Dassh.Props.C18Regions")
     ok_driver = modelio.build_driver(ctx)
+    ctx.prove("Dassh.Props.C18Fuel")
     if ok_driver:
         regions_correspondence(ctx, rng, 3000 if ctx.thorough else 600)
+        fuel_correspondence(ctx, rng, 3000 if ctx.thorough else 600)
     n_valid = 24 if ctx.thorough else 8
     reqs, expect = [], []
     for ci in range(n_valid):
